@@ -10,6 +10,8 @@ import RSVerif.Proofs.EnginesAgree
 import RSVerif.Proofs.Lanes
 import RSVerif.Proofs.SeqEquiv
 import RSVerif.Proofs.SimdSpec
+import RSVerif.Proofs.SimdBlockSpec
+import RSVerif.Proofs.FlatSpec
 
 namespace RS
 open ShardAlg
@@ -91,5 +93,42 @@ theorem simd_kernel_spec (m : Nat) (valueLo valueHi : V128) (i : Fin 16) :
           (mul128 (fun y => gmul (gexp m) y) valueLo valueHi).2 i
       = gmul (gexp m) (symOf valueLo valueHi i) :=
   mul128_gmul m valueLo valueHi i
+
+/-- the per-block kernels of ALL FOUR engine families, transliterated from engine_nosimd.rs,
+    engine_ssse3.rs, engine_avx2.rs (two 128-bit lanes, broadcast tables) and engine_neon.rs
+    (`vqtbl1q_u8`, per-byte shift) — multiply, multiply-add, fft butterfly, ifft butterfly on a
+    64-byte block — are byte-for-byte the same function, for ANY table contents -/
+theorem simd_block_kernels_agree (mulf : Sym → Sym) (x y : Block) :
+    (ssse3MulBlock mulf x = nosimdMulBlock mulf x ∧ avx2MulBlock mulf x = nosimdMulBlock mulf x ∧
+      neonMulBlock mulf x = nosimdMulBlock mulf x) ∧
+    (ssse3MulAdd mulf x y = nosimdMulAdd mulf x y ∧ avx2MulAdd mulf x y = nosimdMulAdd mulf x y ∧
+      neonMulAdd mulf x y = nosimdMulAdd mulf x y) ∧
+    (ssse3Fftb mulf x y = nosimdFftb mulf x y ∧ avx2Fftb mulf x y = nosimdFftb mulf x y ∧
+      neonFftb mulf x y = nosimdFftb mulf x y) ∧
+    (ssse3Ifftb mulf x y = nosimdIfftb mulf x y ∧ avx2Ifftb mulf x y = nosimdIfftb mulf x y ∧
+      neonIfftb mulf x y = nosimdIfftb mulf x y) :=
+  ⟨kernels_agree_block mulf x, muladd_agree_block mulf x y, fftb_agree_block mulf x y,
+   ifftb_agree_block mulf x y⟩
+
+/-- … and with the tables of the multiplier `g^m` each of them is the field butterfly on every one of
+    the 32 symbols of the block (so the block kernels refine `fftBfly` / `ifftBfly`) -/
+theorem simd_block_butterflies (m : Nat) (x y : Block) (i : Fin 32) :
+    let f := fun y => gmul (gexp m) y
+    (blockSym (avx2Fftb f x y).1 i = blockSym x i ^^^ gmul (gexp m) (blockSym y i) ∧
+     blockSym (avx2Fftb f x y).2 i = blockSym y i ^^^ (blockSym x i ^^^ gmul (gexp m) (blockSym y i))) ∧
+    (blockSym (avx2Ifftb f x y).1 i = blockSym x i ^^^ gmul (gexp m) (blockSym y i ^^^ blockSym x i) ∧
+     blockSym (avx2Ifftb f x y).2 i = blockSym y i ^^^ blockSym x i) :=
+  butterflies_gmul m x y i _ _ (Or.inr (Or.inl rfl)) (Or.inr (Or.inl rfl))
+
+/-- the butterflies on the REAL flat memory (`Vec<[u8; 64]>`, `dist2_mut(pos, dist)` with its index
+    arithmetic and `split_at_mut`s, byte-level xor / multiply, write-back) are the position-level
+    butterflies of the loop model, exactly when the views exist (`0 < dist`, `pos + dist < count`) -/
+theorem flat_butterflies_refine (c : Sym) (f : Flat) (hwf : f.WF) (hn : 0 < f.len64) (pos dist : Nat)
+    (hd : 0 < dist) (hp : pos + dist < f.count) :
+    (∃ f', f.fftBfly c pos dist = some f' ∧ f'.WF ∧ f'.absAt f.len64 = RS.fftBfly c f.absV pos (pos + dist)) ∧
+    (∃ f', f.ifftBfly c pos dist = some f' ∧ f'.WF ∧ f'.absAt f.len64 = RS.ifftBfly c f.absV pos (pos + dist)) := by
+  obtain ⟨f1, h1, _, _, w1, a1⟩ := Flat.fftBfly_refines c f hwf hn pos dist hd hp
+  obtain ⟨f2, h2, _, _, w2, a2⟩ := Flat.ifftBfly_refines c f hwf hn pos dist hd hp
+  exact ⟨⟨f1, h1, w1, a1⟩, ⟨f2, h2, w2, a2⟩⟩
 
 end RS
